@@ -189,6 +189,20 @@ class Interp:
             args = [self.arg(a, ur) for a in ins['args']]
             return getattr(cls, meth)(*args)
         op = ins['op']
+        if op in ('unidx', 'binidx'):
+            # an operator chosen by its position in the library's own operator table (whatever its length)
+            from sc3.synth import _specialindex as _si
+            tab = _si._unops_list if op == 'unidx' else _si._binops_list
+            name = tab[ins['idx'] % len(tab)][0]
+
+            def sig(x):
+                fl = flat(x)
+                x = fl[0] if fl else 0.5
+                return x if isinstance(x, ugn.UGen) else ugs.DC.kr(x if isinstance(x, (int, float)) else 0.5)
+            a = sig(self.arg(ins['a'], None))
+            if op == 'unidx':
+                return ugn.UnaryOpUGen.new(name, a)
+            return ugn.BinaryOpUGen.new(name, a, sig(self.arg(ins['b'], None)))
         if op == 'bin':
             a = self.arg(ins['a'], None)
             b = self.arg(ins['b'], None)
@@ -333,7 +347,24 @@ def truth_units(sd):
             outs = []
         else:
             outs = [rate] * u._num_outputs()
-        out.append([type(u).__name__, rate, ins, outs, u._special_index])
+        out.append([type(u).__name__, rate, ins, outs, u._special_index, getattr(u, 'operator', None)])
+    return out
+
+
+def recon_units(sdef):
+    """The units the library's reader rebuilt from the bytes, field by field."""
+    out = []
+    for u in sdef._children:
+        nch = len(u._channels) if isinstance(u, ugn.MultiOutUGen) else None
+        ins = []
+        for i in u.inputs:
+            if isinstance(i, (int, float)):
+                ins.append(['c', f32word(i)])
+            elif isinstance(i, ugn.OutputProxy):
+                ins.append(['u', i.source_ugen._synth_index, i._output_index])
+            else:
+                ins.append(['u', i._synth_index, 0])
+        out.append([type(u).__name__, u.rate, u._special_index, ins, nch, getattr(u, 'operator', None)])
     return out
 
 
@@ -412,6 +443,13 @@ def run_case(prog):
                 res['desc'] = canon_desc(SynthDesc.new_from(sd))
             except Exception as e:
                 res['desc_exc'] = ' <- '.join(exc_chain(e))
+            try:
+                import io as _io
+                rd = SynthDesc._read_stream(_io.BytesIO(b), keep_defs=True)[0]
+                res['recon'] = recon_units(rd.sdef)
+            except Exception as e:
+                res['recon'] = None
+                res['recon_exc'] = ' <- '.join(exc_chain(e))
             try:
                 res['defname'] = SynthDesc.def_name_from_bytes(bytearray(b))
             except Exception as e:
